@@ -27,7 +27,7 @@ Theorem C19_aggregate_not_serving_otherwise :
 Proof. exact agg_not_serving_iff. Qed.
 Print Assumptions C19_aggregate_not_serving_otherwise.
 
-(* _status works on a Python SET: order and multiplicity of the checks are irrelevant *)
+(* the aggregate is a function of the SET of statuses: order and multiplicity of the checks are irrelevant *)
 Theorem C19_aggregate_depends_on_set :
   forall l1 l2, (forall s, In s l1 <-> In s l2) -> agg_status l1 = agg_status l2.
 Proof. exact agg_status_set. Qed.
@@ -275,16 +275,18 @@ Proof. exact poll_alive. Qed.
 Print Assumptions C19_poll_alive.
 
 (* ================================================================================================ *)
-(* (4) the model is instantiated with what the source says now (Gen.FactsC19, regenerated every run) *)
+(* (4) the model is instantiated with what the code does now (Gen.FactsC19: regenerated on every run by probing
+   grpclib.health over the finite domains listed in tools/facts_C19.py) *)
 Theorem C19_source_facts :
-  status_chain = [([2], 0); ([1], 1)] /\ status_else = 2 /\
+  status_table = [((true, true, true), 2); ((true, true, false), 2); ((true, false, true), 2); ((true, false, false), 1);
+                  ((false, true, true), 2); ((false, true, false), 2); ((false, false, true), 0)] /\
   check_unregistered_grpc_status = 5 /\ check_empty_resp = 1 /\
   watch_unregistered_resp = 3 /\ watch_empty_resp = 1 /\
   watch_first_completed = true /\ reset_when_absent_or_done = true /\ reset_clears_then_waits = true /\
+  watch_segment_atomic = true /\
   ttl_cmp = 0 /\ latch_cleared_before_run = true /\ latch_set_in_finally = true /\ func_guarded = true /\
   nonbool_is_type_error = true /\ check_failure_value = 0 /\
   check_notifies_on_change = true /\ set_notifies_on_change = true /\
-  default_check_ttl = 30 /\ default_check_timeout = 10 /\
   map snd serving_status_enum = [0; 1; 2; 3] /\
   subscribe_starts_poll_when_none = true /\ poll_cleared_before_await = true.
 Proof. exact source_facts. Qed.
